@@ -12,7 +12,16 @@ from vlib import common as C
 ID = 'C03'
 READY = True
 EXHAUSTIVE = True
-LEVEL_TEXT = ''
+LEVEL_TEXT = ('Partial (all clauses except the divergence theorem are theorems). Proved in Coq: (1) every tabulated triangle rule, re-extracted from the '
+              'decimal source text on every run, is exact to 2e-15 on all monomials up to the degree it is selected for (d = 1..10), weights > 0, points in the '
+              'closed reference triangle; (2) soundness of the certificate checkers that are run by vm_compute on the exact rational value of every runtime '
+              'table (1-D Gauss rules d = 0..25 to 1e-13, binary64 triangle rules to 1e-14, 2-D and 1-D shape tables of orders 1..5 with/without bubble at '
+              'every rule: values and gradients reproduce every monomial of degree <= order to 1e-11, face-node layout, 1-D node sets) -- exhaustive over the '
+              'configuration set; (3) lifting over R to every non-degenerate affine element and every mesh with explicit tolerance propagation: partition of '
+              'unity, zero gradient sum, exact interpolation and exact mapped gradients of polynomial fields of degree <= order (affine closure + normal '
+              'form), volumes sum to signed area / total area of a counter-clockwise mesh, quadrature exactness by the affine change of variables with the '
+              'reference monomial formula, axisymmetric mode (exact-data version). Not proved, tested on the implementation only: divergence theorem on the '
+              'boundary; identification of the monomial formula with the Riemann integral; tolerance version of the axisymmetric clause.')
 TECHNIQUE = ('Coq proof: vm_compute-checked exactness of the quadrature tables regenerated from the source text; proved certificate '
              'checkers run on the exact rational value of every runtime table (complete configuration set); lifting theorems over R '
              'for every affine element; PrimFloat correspondence for the geometric kernels')
@@ -20,9 +29,22 @@ GEN = ['Tab_TriQuad', 'Tab_FsGeom']
 TARGETS = ['model/M_C03.vo', 'proofs/L_C03sn.vo', 'proofs/L_C03cert.vo', 'proofs/L_C03tab.vo', 'proofs/L_C03lift.vo']
 COQ_FILES = ['base/Num.v', 'model/M_C03.v', 'proofs/L_C03sn.v', 'proofs/L_C03cert.v', 'proofs/L_C03tab.v', 'proofs/L_C03lift.v',
              'props/P_C03.v']
-TRUSTED = []
-ASSUMPTIONS = []
-RULE = ''
+TRUSTED = ['Coq 8.16.1 kernel + vm_compute (no native_compute)',
+           'tools/vlib/tab_c03.py: extraction of the tabulated rules (decimal source text -> exact rationals) and of the index structure of the geometric kernels from the Python AST, fail closed',
+           'harness: exact binary64 -> (mantissa, exponent) conversion of every runtime table, sharding of certificates, de-duplication of byte-identical tables',
+           'hand model of the geometric kernels (model/M_C03.v Section Geo), tied by PrimFloat correspondence on random triangles (tolerance: 8 ulp of the '
+           'cross-product terms for volumes; 64 u cond(J) |J^-1| |dN| for the LU solve vs the closed form; 16 ulp for edge vectors) and by the extracted index structure (gen/Tab_FsGeom.v)',
+           'theorems are over exact reals with the certified table tolerances as explicit hypotheses; binary64 rounding inside FunctionSpace is covered only by L2 (tolerance 2e-10 relative to the theorem\'s own error scale)',
+           'element nodes are the affine images of the reference nodes (owned by C13; checked per mesh in L2 as a guard)']
+ASSUMPTIONS = ['exact real arithmetic in the lifting theorems; table errors enter as the hypotheses RefIds/TriQuadExact with the certified eps',
+               'the integral of a polynomial over a triangle is defined by the affine change of variables and the reference monomial formula i! j!/(i+j+2)!',
+               'axisymmetric theorem is stated for exact reference data (eps = 0)',
+               'divergence theorem: not proved, L2 only']
+RULE = ('certificates: the complete set {order 1..5} x {bubble on/off} x {2-D degree 1..10}, {order 1..5} x {1-D degree 0..25}, all 1-D and 2-D rules, obtained by '
+        'calling the implementation\'s constructors; one configuration = one distinct item. L2: seeded random Delaunay / graded / rotated / anisotropic / '
+        'structured triangulations with random cyclic vertex rotation per element, orders and bubble cycling through all combinations, random rule degrees, '
+        'cartesian and axisymmetric; a mesh counts as non-trivial when it has >= 2 elements; distinct = distinct (kind, seed, order, bubble, degree, mode). '
+        'L1: random triangles over six decades of size, aspect ratio up to 100, both orientations; distinct = distinct triangles.')
 
 ORDERS = (1, 2, 3, 4, 5)
 DEG2D = tuple(range(1, 11))
@@ -113,36 +135,49 @@ class Tables:
                     self.shapes2d[(p, bub, d)] = (A(sh.values), A(sh.gradients))   # [nq, nn], [nq, nn, 2]
 
 
+QED = 'Proof. vm_cast_no_check (@eq_refl bool true). Qed.'     # one VM evaluation, checked by the kernel at Qed
+
+
+def _chunks(seq, n):
+    return [seq[i:i + n] for i in range(0, len(seq), n)]
+
+
 def cert_files(T):
-    """-> list of (name, text, meta) certificate files covering the complete configuration set; identical tables
-    (the same rule serves several degrees) are certified once and the mapping configuration -> certificate is recorded"""
+    """-> (files, cfgmap): certificate files covering the complete configuration set.  Identical tables (the same rule
+    serves several degrees) are certified once; cfgmap records configuration -> certificate(s)."""
     files = []
     cfgmap = {}
-    # --- runtime triangle rules, degree 1..10 (binary64 values of the tables) and 1-D rules 0..25
-    body = [CERT_HEAD]
-    for d in DEG2D:
-        xi, w = T.rule2d[d]
-        body.append('Definition pts_%d : list (sn * sn) := [%s].' % (d, '; '.join(sn2(p) for p in xi)))
-        body.append('Definition ws_%d : list sn := %s.' % (d, snl(w)))
-        body.append('Example tri_rt_%d : tri_rule_ok 2 %d pts_%d ws_%d %d %d = true.\nProof. vm_compute. reflexivity. Qed.' % ((d, d, d, d) + TOL_TRI_RT))
-        body.append('Definition tri_rt_%d_meaning := tri_rule_ok_sound 2 two_le_two %d pts_%d ws_%d %d %d eq_refl tri_rt_%d.' % ((d, d, d, d) + TOL_TRI_RT + (d,)))
-        cfgmap['tri2d:d=%d' % d] = 'cert_C03_tri'
-    files.append(('cert_C03_tri', '\n'.join(body) + '\n', dict(kind='tri', configs=len(DEG2D))))
-    for lo in range(0, 26, 6):
-        ds = [d for d in DEG1D if lo <= d < lo + 6]
+    # --- runtime triangle rules, degree 1..10 (binary64 values of the tables)
+    for grp in ((1, 2, 3, 4, 5, 6), (7, 8), (9, 10)):
         body = [CERT_HEAD]
+        name = 'cert_C03_tri_%d' % grp[0]
+        for d in grp:
+            xi, w = T.rule2d[d]
+            body.append('Definition pts_%d : list (sn * sn) := [%s].' % (d, '; '.join(sn2(p) for p in xi)))
+            body.append('Definition ws_%d : list sn := %s.' % (d, snl(w)))
+            body.append('Example tri_rt_%d : tri_rule_ok 2 %d pts_%d ws_%d %d %d = true.\n%s' % ((d, d, d, d) + TOL_TRI_RT + (QED,)))
+            body.append('Definition tri_rt_%d_meaning := tri_rule_ok_sound 2 two_le_two %d pts_%d ws_%d %d %d eq_refl tri_rt_%d.' % ((d, d, d, d) + TOL_TRI_RT + (d,)))
+            cfgmap['tri2d:d=%d' % d] = name
+        files.append((name, '\n'.join(body) + '\n', dict(kind='tri', configs=len(grp))))
+    # --- 1-D rules 0..25
+    for ds in ([d for d in DEG1D if d < 12], [12, 13, 14, 15], [16, 17, 18], [19, 20, 21], [22, 23], [24, 25]):
+        body = [CERT_HEAD]
+        name = 'cert_C03_g1d_%d' % ds[0]
         for d in ds:
             x, w = T.rule1d[d]
             body.append('Definition xs_%d : list sn := %s.\nDefinition ws_%d : list sn := %s.' % (d, snl(x), d, snl(w)))
-            body.append('Example g1d_%d : gauss1d_ok 2 %d xs_%d ws_%d %d %d = true.\nProof. vm_compute. reflexivity. Qed.' % ((d, d, d, d) + TOL_G1D))
+            body.append('Example g1d_%d : gauss1d_ok 2 %d xs_%d ws_%d %d %d = true.\n%s' % ((d, d, d, d) + TOL_G1D + (QED,)))
             body.append('Definition g1d_%d_meaning := gauss1d_ok_sound 2 two_le_two %d xs_%d ws_%d %d %d eq_refl g1d_%d.' % ((d, d, d, d) + TOL_G1D + (d,)))
-            cfgmap['gauss1d:d=%d' % d] = 'cert_C03_g1d_%d' % lo
-        files.append(('cert_C03_g1d_%d' % lo, '\n'.join(body) + '\n', dict(kind='g1d', configs=len(ds))))
-    # --- 2-D shape tables per (order, bubble): nodes, one record list per distinct rule table
+            cfgmap['gauss1d:d=%d' % d] = name
+        files.append((name, '\n'.join(body) + '\n', dict(kind='g1d', configs=len(ds))))
+    # --- 2-D shape tables per (order, bubble): nodes, record lists per distinct rule table, split into chunks of points
     for (p, bub), el in sorted(T.el2d.items()):
         tag = 'p%d%s' % (p, 'b' if bub else '')
-        body = [CERT_HEAD]
-        body.append('Definition nodes : list (sn * sn) := [%s].' % '; '.join(sn2(c) for c in el['coords']))
+        nn = len(el['coords'])
+        unit = nn * ((p + 1) * (p + 2) // 2)
+        per_chunk = max(1, 2500 // unit)
+        head = [CERT_HEAD, 'Definition nodes : list (sn * sn) := [%s].' % '; '.join(sn2(c) for c in el['coords'])]
+        chunks = []      # (label, text, work)
         seen = {}
         for d in DEG2D:
             xi, _ = T.rule2d[d]
@@ -150,19 +185,34 @@ def cert_files(T):
             key = digest(xi, N, G)
             if key not in seen:
                 k = len(seen)
-                seen[key] = k
                 recs = ['(%s, (%s, (%s, %s)))' % (sn2(xi[q]), snl(N[q]), snl(G[q, :, 0]), snl(G[q, :, 1])) for q in range(len(xi))]
-                body.append('Definition q_%d : list qrec := [%s].' % (k, ';\n  '.join(recs)))
-                body.append('Example sh_%d : shapes_ok 2 %d nodes q_%d %d %d = true.\nProof. vm_compute. reflexivity. Qed.' % ((k, p, k) + TOL_SHAPE))
-                body.append('Definition sh_%d_meaning := shapes_ok_sound 2 two_le_two %d nodes q_%d %d %d eq_refl sh_%d.' % ((k, p, k) + TOL_SHAPE + (k,)))
-            cfgmap['shapes2d:p=%d,bubble=%s,d=%d' % (p, bub, d)] = 'cert_C03_sh_%s#sh_%d' % (tag, seen[key])
-        # face-node layout against the 1-D element of the same order
-        body.append('Definition nodes1 : list sn := %s.' % snl(T.el1d[p]['coords']))
-        body.append('Example faces : faces_ok 2 nodes %s [%s] nodes1 %d %d = true.\nProof. vm_compute. reflexivity. Qed.' % (
-            (natl(el['vertexNodes']), '; '.join(natl(r) for r in el['faceNodes'])) + TOL_FACE))
-        body.append('Definition faces_meaning := faces_ok_sound 2 two_le_two nodes _ _ nodes1 %d %d eq_refl faces.' % TOL_FACE)
+                labels = []
+                for c, rs in enumerate(_chunks(recs, per_chunk)):
+                    lab = '%d_%d' % (k, c)
+                    txt = ('Definition q_%s : list qrec := [%s].\n' % (lab, ';\n  '.join(rs))
+                           + 'Example sh_%s : shapes_ok 2 %d nodes q_%s %d %d = true.\n%s\n' % ((lab, p, lab) + TOL_SHAPE + (QED,))
+                           + 'Definition sh_%s_meaning := shapes_ok_sound 2 two_le_two %d nodes q_%s %d %d eq_refl sh_%s.' % ((lab, p, lab) + TOL_SHAPE + (lab,)))
+                    chunks.append((lab, txt, len(rs) * unit))
+                    labels.append(lab)
+                seen[key] = labels
+            cfgmap['shapes2d:p=%d,bubble=%s,d=%d' % (p, bub, d)] = 'cert_C03_sh_%s#sh_{%s}' % (tag, ','.join(seen[key]))
+        faces = ['Definition nodes1 : list sn := %s.' % snl(T.el1d[p]['coords']),
+                 'Example faces : faces_ok 2 nodes %s [%s] nodes1 %d %d = true.\n%s' % (
+                     (natl(el['vertexNodes']), '; '.join(natl(r) for r in el['faceNodes'])) + TOL_FACE + (QED,)),
+                 'Definition faces_meaning := faces_ok_sound 2 two_le_two nodes _ _ nodes1 %d %d eq_refl faces.' % TOL_FACE]
         cfgmap['faces:p=%d,bubble=%s' % (p, bub)] = 'cert_C03_sh_%s#faces' % tag
-        files.append(('cert_C03_sh_%s' % tag, '\n'.join(body) + '\n', dict(kind='shapes2d', configs=len(DEG2D) + 1, distinct=len(seen))))
+        shards, cur, work = [], [], 0
+        for lab, txt, wk in chunks:
+            if cur and work + wk > 8000:
+                shards.append(cur)
+                cur, work = [], 0
+            cur.append(txt)
+            work += wk
+        shards.append(cur)
+        for si, sh in enumerate(shards):
+            body = head + sh + (faces if si == 0 else [])
+            files.append(('cert_C03_sh_%s_%d' % (tag, si), '\n'.join(body) + '\n',
+                          dict(kind='shapes2d', configs=(len(DEG2D) + 1) if si == 0 else 0, distinct=len(seen))))
     # --- 1-D shape tables and node sets per order
     for p in ORDERS:
         body = [CERT_HEAD]
@@ -172,7 +222,7 @@ def cert_files(T):
         cs = sh_legendre_deriv(p)
         body.append('Example lob_coeffs : poly_deriv (sh_legendre %d) = [%s].\nProof. vm_compute. reflexivity. Qed.' % (p, '; '.join('(%d)' % c for c in cs)))
         for nm in ('nodes1', 'lobatto'):
-            body.append('Example %s_ok : nodes1d_ok 2 %d %s (poly_deriv (sh_legendre %d)) %d %d = true.\nProof. vm_compute. reflexivity. Qed.' % ((nm, p, nm, p) + TOL_LOB))
+            body.append('Example %s_ok : nodes1d_ok 2 %d %s (poly_deriv (sh_legendre %d)) %d %d = true.\n%s' % ((nm, p, nm, p) + TOL_LOB + (QED,)))
             body.append('Definition %s_meaning := nodes1d_ok_sound 2 two_le_two %d %s _ %d %d eq_refl %s_ok.' % ((nm, p, nm) + TOL_LOB + (nm,)))
         if e1['vertexNodes'] != [0, p] or e1['interiorNodes'] != list(range(1, p)):
             body.append('Example vertex_nodes_1d_unexpected : false = true. Proof. reflexivity. Qed.')
@@ -186,7 +236,7 @@ def cert_files(T):
                 seen[key] = k
                 recs = ['(%s, (%s, %s))' % (sn(x[q]), snl(N[:, q]), snl(dN[:, q])) for q in range(len(x))]
                 body.append('Definition q_%d : list qrec1 := [%s].' % (k, ';\n  '.join(recs)))
-                body.append('Example sh_%d : shapes1d_ok 2 %d nodes1 q_%d %d %d = true.\nProof. vm_compute. reflexivity. Qed.' % ((k, p, k) + TOL_SHAPE))
+                body.append('Example sh_%d : shapes1d_ok 2 %d nodes1 q_%d %d %d = true.\n%s' % ((k, p, k) + TOL_SHAPE + (QED,)))
                 body.append('Definition sh_%d_meaning := shapes1d_ok_sound 2 two_le_two %d nodes1 q_%d %d %d eq_refl sh_%d.' % ((k, p, k) + TOL_SHAPE + (k,)))
             cfgmap['shapes1d:p=%d,d=%d' % (p, d)] = 'cert_C03_s1_p%d#sh_%d' % (p, seen[key])
         cfgmap['nodes1d:p=%d' % p] = 'cert_C03_s1_p%d#nodes1_ok,lobatto_ok' % p
@@ -194,7 +244,7 @@ def cert_files(T):
     return files, cfgmap
 
 
-def run_certs(ctx, files, jobs=10, timeout=600):
+def run_certs(ctx, files, jobs=12, timeout=600):
     os.makedirs(C.RUN, exist_ok=True)
     paths = []
     for name, text, meta in files:
@@ -221,3 +271,629 @@ def run_certs(ctx, files, jobs=10, timeout=600):
         except OSError:
             pass
     return res
+
+
+# ----------------------------------------------------------------------------- exact integrals (Python integers / Fractions)
+
+def _pmul(a, b):
+    out = {}
+    for (r1, s1), c1 in a.items():
+        for (r2, s2), c2 in b.items():
+            k = (r1 + r2, s1 + s2)
+            out[k] = out.get(k, 0) + c1 * c2
+    return out
+
+
+_FACT = [math.factorial(n) for n in range(64)]
+
+
+class ExactTri:
+    """exact integrals of monomials over a triangle whose vertices are binary64 numbers (affine pull-back to the
+    reference triangle, int xi^r eta^s = r! s!/(r+s+2)!), all in integers over a common power-of-two scale"""
+
+    def __init__(self, v0, v1, v2):
+        fr = [Fr(float(c)) for v in (v0, v1, v2) for c in v]
+        den = 1
+        for f in fr:
+            den = max(den, f.denominator)
+        self.den = den                    # power of two
+        x0, y0, x1, y1, x2, y2 = [int(f * den) for f in fr]
+        self.lx = {(0, 0): x2, (1, 0): x0 - x2, (0, 1): x1 - x2}
+        self.ly = {(0, 0): y2, (1, 0): y0 - y2, (0, 1): y1 - y2}
+        self.jac = (x1 - x0) * (y2 - y0) - (y1 - y0) * (x2 - x0)      # times den^2
+        self.px = [{(0, 0): 1}]
+        self.py = [{(0, 0): 1}]
+
+    def _pow(self, tab, lin, n):
+        while len(tab) <= n:
+            tab.append(_pmul(tab[-1], lin))
+        return tab[n]
+
+    def pullback(self, i, j):
+        return _pmul(self._pow(self.px, self.lx, i), self._pow(self.py, self.ly, j))      # coefficients times den^(i+j)
+
+    def integral(self, i, j):
+        """int_T x^i y^j dA  (signed with the orientation of the vertices) as a Fraction"""
+        P = self.pullback(i, j)
+        s = Fr(0)
+        for (r, t), c in P.items():
+            s += Fr(c * _FACT[r] * _FACT[t], _FACT[r + t + 2])
+        return s * self.jac / Fr(self.den) ** (i + j + 2)
+
+    def norm1(self, i, j):
+        P = self.pullback(i, j)
+        return float(Fr(sum(abs(c) for c in P.values()), self.den ** (i + j)))
+
+
+# ----------------------------------------------------------------------------- meshes
+
+MESH_KINDS = ('delaunay', 'graded', 'rotated', 'anisotropic', 'structured')
+
+
+def make_simplex_mesh(kind, mseed):
+    """seeded random triangulation -> (coords float64 [n,2], conns int [ne,3]); counter-clockwise elements with a random
+    cyclic rotation of the vertex order of every element"""
+    import random
+    import numpy as onp
+    from scipy.spatial import Delaunay
+    r = random.Random(mseed)
+    if kind == 'structured':
+        nx, ny = r.randrange(2, 5), r.randrange(2, 5)
+        xs = sorted([0.0, 1.0] + [r.uniform(0.05, 0.95) for _ in range(nx - 1)])
+        ys = sorted([0.0, 1.0] + [r.uniform(0.05, 0.95) for _ in range(ny - 1)])
+        pts = onp.array([[x, y] for y in ys for x in xs])
+    else:
+        n = r.randrange(5, 14)
+        if kind == 'graded':
+            pts = [[r.random() ** 3, r.random() ** 3] for _ in range(n)]
+        else:
+            pts = [[r.random(), r.random()] for _ in range(n)]
+        pts += [[0.0, 0.0], [1.0, 0.0], [1.0, 1.0], [0.0, 1.0]]
+        pts = onp.array(pts)
+    tri = Delaunay(pts)
+    conns = onp.array(tri.simplices, dtype=int)
+    # drop slivers of (numerically) zero area, orient counter-clockwise
+    keep = []
+    for c in conns:
+        a, b, d = pts[c[0]], pts[c[1]], pts[c[2]]
+        j = (b[0] - a[0]) * (d[1] - a[1]) - (b[1] - a[1]) * (d[0] - a[0])
+        if abs(j) < 1e-9:
+            continue
+        if j < 0:
+            c = c[[0, 2, 1]]
+        k = r.randrange(3)
+        keep.append(onp.roll(c, k))
+    conns = onp.array(keep, dtype=int)
+    used = onp.unique(conns.ravel())
+    remap = -onp.ones(len(pts), dtype=int)
+    remap[used] = onp.arange(len(used))
+    pts, conns = pts[used], remap[conns]
+    if kind in ('rotated', 'anisotropic'):
+        th = r.uniform(0, 2 * math.pi)
+        sx, sy = (1.0, 1.0) if kind == 'rotated' else (10.0 ** r.uniform(-2, 2), 10.0 ** r.uniform(-2, 2))
+        R = onp.array([[math.cos(th), -math.sin(th)], [math.sin(th), math.cos(th)]])
+        pts = (pts * onp.array([sx, sy])) @ R.T + onp.array([r.uniform(-3, 3), r.uniform(-3, 3)])
+    if kind != 'graded' and r.random() < 0.5:
+        pts = pts + onp.array([r.uniform(0.5, 4.0), r.uniform(-2, 2)])      # keep away from r = 0 sometimes
+    return onp.ascontiguousarray(pts, dtype=onp.float64), conns
+
+
+def build_fs(coords, conns, order, bubble, degree, mode):
+    import jax.numpy as jnp
+    from optimism import FunctionSpace, Mesh, QuadratureRule
+    blocks = {'block': jnp.arange(conns.shape[0])}
+    mesh = Mesh.construct_mesh_from_basic_data(jnp.asarray(coords), jnp.asarray(conns), blocks)
+    if order > 1 or bubble:
+        mesh = Mesh.create_higher_order_mesh_from_simplex_mesh(mesh, order, useBubbleElement=bubble) if order > 1 else mesh
+    qr = QuadratureRule.create_quadrature_rule_on_triangle(degree)
+    fs = FunctionSpace.construct_function_space(mesh, qr, mode2D=mode)
+    return mesh, qr, fs
+
+
+EPS_L2 = 2e-10     # certified table tolerance 1e-11 plus head-room for binary64 rounding of the mapped quantities
+
+
+def l2_case(case):
+    """evaluate the conclusions of the lifting theorems on the implementation's FunctionSpace for one seeded mesh
+    configuration; returns (list of violated clauses, number of evaluations, stats)"""
+    import numpy as onp
+    import jax.numpy as jnp
+    from optimism import FunctionSpace, Mesh, QuadratureRule
+    import random
+    kind, mseed, p, bub, d, mode = case['kind'], case['mseed'], case['order'], case['bubble'], case['degree'], case['mode']
+    r = random.Random(mseed ^ 0x5EED)
+    coords, conns = make_simplex_mesh(kind, mseed)
+    mesh, qr, fs = build_fs(coords, conns, p, bub, d, mode)
+    X = onp.asarray(mesh.coords, dtype=onp.float64)
+    cn = onp.asarray(mesh.conns)
+    vn = onp.asarray(mesh.parentElement.vertexNodes)
+    ne = cn.shape[0]
+    xi = onp.asarray(qr.xigauss, dtype=onp.float64)
+    w = onp.asarray(qr.wgauss, dtype=onp.float64)
+    shapes = onp.asarray(fs.shapes)
+    sg = onp.asarray(fs.shapeGrads)
+    vols = onp.asarray(fs.vols)
+    bad = []
+    nev = 0
+    V = X[cn[:, vn]]                                   # [ne, 3, 2] vertex coordinates v0, v1, v2
+    # the simplex vertices must be the ones we passed in (elevation keeps them)
+    if not onp.array_equal(V, coords[conns]):
+        bad.append('vertex nodes of the elevated mesh are not the simplex vertices')
+    a1, b1 = V[:, 0, 0] - V[:, 2, 0], V[:, 0, 1] - V[:, 2, 1]
+    a2, b2 = V[:, 1, 0] - V[:, 2, 0], V[:, 1, 1] - V[:, 2, 1]
+    jac = a1 * b2 - a2 * b1
+    Kx = (onp.abs(b2) + onp.abs(b1)) / onp.abs(jac)
+    Ky = (onp.abs(a1) + onp.abs(a2)) / onp.abs(jac)
+    cx = onp.abs(V[:, 2, 0]) + onp.abs(a1) + onp.abs(a2)       # 1-norm of the pulled-back coordinate functions
+    cy = onp.abs(V[:, 2, 1]) + onp.abs(b1) + onp.abs(b2)
+    # physical quadrature points X(xi_q) = v2 + (v0 - v2) xi + (v1 - v2) eta
+    Xq = V[:, None, 2, :] + xi[None, :, 0, None] * (V[:, None, 0, :] - V[:, None, 2, :]) + xi[None, :, 1, None] * (V[:, None, 1, :] - V[:, None, 2, :])
+    # nodes are the affine images of the reference nodes (premise of the lifting theorems; C13 owns the clause, checked here as a guard)
+    ref = onp.asarray(mesh.parentElement.coordinates, dtype=onp.float64)
+    Xn = V[:, None, 2, :] + ref[None, :, 0, None] * (V[:, None, 0, :] - V[:, None, 2, :]) + ref[None, :, 1, None] * (V[:, None, 1, :] - V[:, None, 2, :])
+    scale = onp.abs(V).max()
+    if onp.abs(Xn - X[cn]).max() > 1e-12 * max(1.0, scale):
+        bad.append('element nodes are not the affine images of the reference nodes (max dev %.3g)' % onp.abs(Xn - X[cn]).max())
+    # (a) partition of unity, gradient sums
+    e = onp.abs(shapes.sum(axis=2) - 1.0).max()
+    nev += shapes.shape[0] * shapes.shape[1]
+    if not e <= EPS_L2:
+        bad.append('shape functions do not sum to one: max error %.3g' % e)
+    gs = sg.sum(axis=2)                                # [ne, nq, 2]
+    ex_ = (onp.abs(gs[:, :, 0]) / Kx[:, None]).max()
+    ey_ = (onp.abs(gs[:, :, 1]) / Ky[:, None]).max()
+    if not max(ex_, ey_) <= EPS_L2:
+        bad.append('mapped shape gradients do not sum to zero: scaled error %.3g' % max(ex_, ey_))
+    # (b, c) interpolation and gradients of monomial fields of degree <= p
+    monos = [(i, j) for i in range(p + 1) for j in range(p + 1 - i)]
+    for (i, j) in monos:
+        U = X[:, 0] ** i * X[:, 1] ** j
+        Uq = onp.asarray(FunctionSpace.interpolate_to_points(fs, jnp.asarray(U)))
+        Gq = onp.asarray(FunctionSpace.compute_field_gradient(fs, jnp.asarray(U)))
+        C = (cx ** i * cy ** j)[:, None]
+        f = Xq[:, :, 0] ** i * Xq[:, :, 1] ** j
+        fxv = i * Xq[:, :, 0] ** max(i - 1, 0) * Xq[:, :, 1] ** j if i > 0 else 0 * f
+        fyv = j * Xq[:, :, 0] ** i * Xq[:, :, 1] ** max(j - 1, 0) if j > 0 else 0 * f
+        nev += 3 * f.size
+        e0 = (onp.abs(Uq - f) / C).max()
+        e1 = (onp.abs(Gq[:, :, 0] - fxv) / (Kx[:, None] * C)).max()
+        e2 = (onp.abs(Gq[:, :, 1] - fyv) / (Ky[:, None] * C)).max()
+        if not e0 <= EPS_L2:
+            bad.append('interpolation of x^%d y^%d not exact: scaled error %.3g' % (i, j, e0))
+        if not max(e1, e2) <= EPS_L2:
+            bad.append('gradient of interpolated x^%d y^%d not exact: scaled error %.3g' % (i, j, max(e1, e2)))
+    # (d, e, f) integrals of monomials of degree <= d (cartesian) / <= d - 1 (axisymmetric) against exact rational values
+    ex = [ExactTri(V[k, 0], V[k, 1], V[k, 2]) for k in range(ne)]
+    state = jnp.zeros((ne, len(w), 1))
+    Udummy = jnp.zeros(X.shape[0])
+    dmax = d if mode == 'cartesian' else d - 1
+    cand = [(i, j) for i in range(dmax + 1) for j in range(dmax + 1 - i)]
+    chosen = [(0, 0)] + ([m for m in cand if sum(m) == dmax][:1]) + (r.sample(cand, min(3, len(cand))) if cand else [])
+    if mode == 'cartesian':
+        area = sum(Fr(t.jac, 2 * t.den ** 2) for t in ex)
+        got = float(vols.sum())
+        tol = EPS_L2 * float(sum(abs(Fr(t.jac, t.den ** 2)) for t in ex))
+        nev += 1
+        if not abs(got - float(area)) <= tol:
+            bad.append('quadrature-point volumes sum to %r, exact area %r' % (got, float(area)))
+        if not (vols > 0).all():
+            bad.append('non-positive quadrature-point volume on a counter-clockwise mesh')
+    for (i, j) in dict.fromkeys(chosen):
+        func = (lambda u, gu, s, x, dt, i=i, j=j: x[0] ** i * x[1] ** j)
+        got = float(FunctionSpace.integrate_over_block(fs, Udummy, state, 0.0, func, mesh.blocks['block']))
+        if mode == 'cartesian':
+            exact = sum(t.integral(i, j) for t in ex)
+            bound = sum(abs(float(Fr(t.jac, t.den ** 2))) * t.norm1(i, j) for t in ex)
+            fac = 1.0
+        else:
+            exact = sum(t.integral(i + 1, j) for t in ex)
+            bound = sum(abs(float(Fr(t.jac, t.den ** 2))) * t.norm1(i + 1, j) for t in ex)
+            fac = 2 * math.pi
+        nev += 1
+        if not abs(got - fac * float(exact)) <= fac * EPS_L2 * bound:
+            bad.append('%s integral of x^%d y^%d over the mesh = %r, exact %r (tolerance %.3g)' % (mode, i, j, got, fac * float(exact), fac * EPS_L2 * bound))
+    # (g) divergence theorem on the boundary: sum_edges int F.n ds = sum_elements int div F dA,  F = (x^a y^b, x^c y^e)
+    if mode == 'cartesian':
+        d1 = case['degree1d']
+        qr1 = QuadratureRule.create_quadrature_rule_1D(d1)
+        _, edges = Mesh.create_edges(onp.asarray(conns))
+        bnd = onp.array([[e_[0], e_[1]] for e_ in edges if e_[2] < 0], dtype=int)
+        kmax = min(d1, 6)
+        for _ in range(2):
+            a, b = r.randrange(0, kmax + 1), 0
+            b = r.randrange(0, kmax + 1 - a)
+            c = r.randrange(0, kmax + 1)
+            e_ = r.randrange(0, kmax + 1 - c)
+            func = (lambda u, x, n, a=a, b=b, c=c, e_=e_: x[0] ** a * x[1] ** b * n[0] + x[0] ** c * x[1] ** e_ * n[1])
+            got = float(FunctionSpace.integrate_function_on_edges(fs, func, jnp.asarray(X), qr1, jnp.asarray(bnd)))
+            exact = Fr(0)
+            bound = 0.0
+            for t in ex:
+                if a > 0:
+                    exact += a * t.integral(a - 1, b)
+                    bound += a * abs(float(Fr(t.jac, t.den ** 2))) * t.norm1(a - 1, b)
+                if e_ > 0:
+                    exact += e_ * t.integral(c, e_ - 1)
+                    bound += e_ * abs(float(Fr(t.jac, t.den ** 2))) * t.norm1(c, e_ - 1)
+            per = float(onp.abs(V[:, 0] - V[:, 1]).sum() + onp.abs(V[:, 1] - V[:, 2]).sum())
+            tol = EPS_L2 * (bound + per * (float(cx.max()) ** a * float(cy.max()) ** b + float(cx.max()) ** c * float(cy.max()) ** e_))
+            nev += 1
+            if not abs(got - float(exact)) <= tol:
+                bad.append('divergence theorem fails for F=(x^%d y^%d, x^%d y^%d) with 1-D degree %d: boundary flux %r, exact int div F %r (tol %.3g)' % (a, b, c, e_, d1, got, float(exact), tol))
+            if p == 1 and not bub:
+                from optimism import Surface
+                f2 = (lambda x, n, a=a, b=b, c=c, e_=e_: x[0] ** a * x[1] ** b * n[0] + x[0] ** c * x[1] ** e_ * n[1])
+                got2 = float(Surface.integrate_function_on_surface(qr1, jnp.asarray(bnd), mesh, f2))
+                nev += 1
+                if not abs(got2 - float(exact)) <= tol:
+                    bad.append('divergence theorem (Surface.integrate_function_on_surface) fails for F=(x^%d y^%d, x^%d y^%d), 1-D degree %d: %r vs %r' % (a, b, c, e_, d1, got2, float(exact)))
+    return bad, nev, dict(elements=ne, nodes=int(X.shape[0]), min_jac=float(onp.abs(jac).min()), max_aspect=float((Kx * onp.sqrt(onp.abs(jac))).max()))
+
+
+# ----------------------------------------------------------------------------- L1: geometric kernels, model (binary64) vs implementation
+
+IMPORTS = ['From OV.model Require Import M_C03.']
+
+
+def _fp(p):
+    return '(%s, %s)' % (C.cf(p[0]), C.cf(p[1]))
+
+
+def _fl(xs):
+    return '[' + '; '.join(C.cf(x) for x in xs) + ']'
+
+
+def l1_cases(ctx):
+    import numpy as onp
+    r = ctx.rng('l1')
+    cases = []
+    for k in range(ctx.n(60, 600)):
+        p = r.choice([1, 2, 3])
+        sc = 10.0 ** r.uniform(-3, 3)
+        c0 = (r.uniform(-5, 5) * sc, r.uniform(0.1, 5) * sc)
+        ang = r.uniform(0, 2 * math.pi)
+        asp = 10.0 ** r.uniform(0, 2)
+        v = []
+        for t in range(3):
+            a = ang + 2 * math.pi * t / 3 + r.uniform(-0.6, 0.6)
+            v.append((c0[0] + sc * math.cos(a) * asp, c0[1] + sc * math.sin(a)))
+        if r.random() < 0.5:
+            v = [v[0], v[2], v[1]]          # clockwise too: the kernels are defined for any orientation
+        nq = r.randrange(1, 4)
+        cases.append(dict(p=p, v=v, ws=[r.uniform(0.01, 0.5) for _ in range(nq)],
+                          dN=[(r.uniform(-8, 8), r.uniform(-8, 8)) for _ in range(2)],
+                          extra=[(r.uniform(-5, 5) * sc, r.uniform(-5, 5) * sc) for _ in range(30)],
+                          Ns=[[r.uniform(-0.3, 1.0) for _ in range(30)] for _ in range(nq)],
+                          edge=[(r.uniform(-5, 5) * sc, r.uniform(-5, 5) * sc), (r.uniform(-5, 5) * sc, r.uniform(-5, 5) * sc)]))
+    return cases
+
+
+def l1_impl(cases):
+    import numpy as onp
+    import jax.numpy as jnp
+    from types import SimpleNamespace
+    from optimism import FunctionSpace, Interpolants, Mesh
+    pes = {p: Interpolants.make_parent_element_2d(p) for p in (1, 2, 3)}
+    pe1 = {p: Interpolants.make_parent_element_1d(p) for p in (1, 2, 3)}
+    out = []
+    for c in cases:
+        pe = pes[c['p']]
+        nn = int(pe.coordinates.shape[0])
+        vn = [int(i) for i in pe.vertexNodes]
+        coords = onp.array(c['extra'][:nn], dtype=onp.float64)
+        for k in range(3):
+            coords[vn[k]] = c['v'][k]
+        conn = jnp.arange(nn)
+        nq = len(c['ws'])
+        shapes = onp.array([row[:nn] for row in c['Ns']], dtype=onp.float64)
+        w = jnp.asarray(onp.array(c['ws']))
+        vols = onp.asarray(FunctionSpace.compute_element_volumes(jnp.asarray(coords), conn, pe, jnp.asarray(shapes), w))
+        axi = onp.asarray(FunctionSpace.compute_element_volumes_axisymmetric(jnp.asarray(coords), conn, pe, jnp.asarray(shapes), w))
+        dN = onp.zeros((1, nn, 2))
+        dN[0, 0] = c['dN'][0]
+        dN[0, nn - 1] = c['dN'][1]
+        sg = onp.asarray(FunctionSpace.map_element_shape_grads(jnp.asarray(coords), conn, pe, jnp.asarray(dN)))
+        ec = onp.array(c['extra'][:c['p'] + 1], dtype=onp.float64)
+        ec[0], ec[c['p']] = c['edge'][0], c['edge'][1]
+        t, n, j = Mesh.compute_edge_vectors(SimpleNamespace(parentElement1d=pe1[c['p']]), jnp.asarray(ec))
+        out.append(dict(vols=[float(x) for x in vols], axi=[float(x) for x in axi], xs=[float(x) for x in coords[:, 0]], nn=nn,
+                        g=[float(sg[0, 0, 0]), float(sg[0, 0, 1]), float(sg[0, nn - 1, 0]), float(sg[0, nn - 1, 1])],
+                        edge=[float(t[0]), float(t[1]), float(n[0]), float(n[1]), float(j)]))
+    return out
+
+
+def l1_exprs(cases, impl):
+    ex = []
+    for c, o in zip(cases, impl):
+        v0, v1, v2 = (_fp(x) for x in c['v'])
+        nn = o['nn']
+        Ns = '[' + '; '.join(_fl(row[:nn]) for row in c['Ns']) + ']'
+        ex.append('fencs (@el_vols float NumF %s %s %s %s ++ @el_vols_axi float NumF %s %s %s %s %s %s %s)' % (
+            v0, v1, v2, _fl(c['ws']), C.cf(2 * math.pi), v0, v1, v2, Ns, _fl(o['xs']), _fl(c['ws'])))
+        ex.append('let g := @map_grad float NumF %s %s %s %s in let h := @map_grad float NumF %s %s %s %s in fencs [fst g; snd g; fst h; snd h]' % (
+            v0, v1, v2, _fp(c['dN'][0]), v0, v1, v2, _fp(c['dN'][1])))
+        ex.append("let '(t, n, j) := @edge_vectors float NumF %s %s in fencs [fst t; snd t; fst n; snd n; j]" % (_fp(c['edge'][0]), _fp(c['edge'][1])))
+    return ex
+
+
+def l1_compare(ctx, cases, impl, res):
+    U = 2.0 ** -52
+    mism = 0
+    k = 0
+
+    def chk(name, case, got, want, tol):
+        nonlocal mism
+        if not (abs(got - want) <= tol):
+            mism += 1
+            if mism <= 10:
+                ctx.fail('correspondence', 'model %s = %r but implementation gives %r (tolerance %.3g) on triangle %r' % (name, got, want, tol, case['v']),
+                         case=dict(ckind='l1', fn=name, case=case, model=got, impl=want))
+
+    for c, o in zip(cases, impl):
+        (x0, y0), (x1, y1), (x2, y2) = c['v']
+        nq = len(c['ws'])
+        vals = C.dec_floats(res[k]); k += 1
+        mag = abs((x1 - x0) * (y2 - y0)) + abs((y1 - y0) * (x2 - x0))
+        for q in range(nq):
+            chk('el_vols[%d]' % q, c, vals[q], o['vols'][q], 8 * U * mag * c['ws'][q])
+            rmag = sum(abs(a * b) for a, b in zip(c['Ns'][q][:o['nn']], o['xs']))
+            chk('el_vols_axi[%d]' % q, c, vals[nq + q], o['axi'][q], 64 * U * 2 * math.pi * rmag * mag * c['ws'][q])
+        g = C.dec_floats(res[k]); k += 1
+        a1, b1, a2, b2 = x0 - x2, y0 - y2, x1 - x2, y1 - y2
+        det = a1 * b2 - a2 * b1
+        nJ = math.sqrt(a1 * a1 + b1 * b1 + a2 * a2 + b2 * b2)
+        cond = nJ * nJ / abs(det)
+        for t in range(2):
+            dn = max(abs(c['dN'][t][0]), abs(c['dN'][t][1]))
+            tol = 64 * U * cond * dn * nJ / abs(det)
+            chk('map_grad.x', c, g[2 * t], o['g'][2 * t], tol)
+            chk('map_grad.y', c, g[2 * t + 1], o['g'][2 * t + 1], tol)
+        e = C.dec_floats(res[k]); k += 1
+        L = math.hypot(c['edge'][1][0] - c['edge'][0][0], c['edge'][1][1] - c['edge'][0][1])
+        for t in range(4):
+            chk('edge_vectors[%d]' % t, c, e[t], o['edge'][t], 16 * U)
+        chk('edge_vectors.jac', c, e[4], o['edge'][4], 16 * U * L)
+    ctx.count('model_vs_impl_comparisons', k)
+    ctx.count('model_vs_impl_mismatches', mism)
+
+
+# ----------------------------------------------------------------------------- exact re-evaluation of a failed certificate (search)
+
+def table_identities_exact(T, limit=5):
+    """re-evaluate every certified identity in Python Fractions; -> list of concrete failures (dicts)"""
+    bad = []
+
+    def add(what, case):
+        if len(bad) < limit:
+            bad.append(dict(kind='conclusion', what=what, case=case, concrete=True))
+
+    F = lambda a: [Fr(float(x)) for x in a]
+    for d in DEG2D:
+        xi, w = T.rule2d[d]
+        xs, ys, ws = F(xi[:, 0]), F(xi[:, 1]), F(w)
+        for i in range(d + 1):
+            for j in range(d + 1 - i):
+                s = sum(wq * x ** i * y ** j for wq, x, y in zip(ws, xs, ys))
+                ex = Fr(_FACT[i] * _FACT[j], _FACT[i + j + 2])
+                if abs(s - ex) > Fr(*TOL_TRI_RT):
+                    add('triangle rule of degree %d integrates x^%d y^%d to %r instead of %r' % (d, i, j, float(s), float(ex)),
+                        dict(ckind='table', table='tri2d', degree=d, mono=[i, j], error=float(s - ex)))
+        if not all(x > 0 for x in ws) or not all(x >= 0 and y >= 0 and x + y <= 1 for x, y in zip(xs, ys)):
+            add('triangle rule of degree %d has a non-positive weight or a point outside the reference triangle' % d,
+                dict(ckind='table', table='tri2d', degree=d, mono=None))
+    for d in DEG1D:
+        x, w = T.rule1d[d]
+        xs, ws = F(x), F(w)
+        for k in range(d + 1):
+            s = sum(wq * xq ** k for wq, xq in zip(ws, xs))
+            if abs(s - Fr(1, k + 1)) > Fr(*TOL_G1D):
+                add('1-D rule of degree %d integrates x^%d to %r instead of 1/%d' % (d, k, float(s), k + 1),
+                    dict(ckind='table', table='gauss1d', degree=d, mono=[k], error=float(s - Fr(1, k + 1))))
+    for (p, bub, d), (N, G) in T.shapes2d.items():
+        el = T.el2d[(p, bub)]
+        X = el['coords']
+        xn, yn = F(X[:, 0]), F(X[:, 1])
+        xi = T.rule2d[d][0]
+        for q in range(len(xi)):
+            xq, yq = Fr(float(xi[q, 0])), Fr(float(xi[q, 1]))
+            Nq, Gx, Gy = F(N[q]), F(G[q, :, 0]), F(G[q, :, 1])
+            for i in range(p + 1):
+                for j in range(p + 1 - i):
+                    m = [a ** i * b ** j for a, b in zip(xn, yn)]
+                    e0 = sum(a * b for a, b in zip(Nq, m)) - xq ** i * yq ** j
+                    e1 = sum(a * b for a, b in zip(Gx, m)) - (i * xq ** (i - 1) * yq ** j if i else 0)
+                    e2 = sum(a * b for a, b in zip(Gy, m)) - (j * xq ** i * yq ** (j - 1) if j else 0)
+                    if max(abs(e0), abs(e1), abs(e2)) > Fr(*TOL_SHAPE):
+                        add('shape table order %d bubble %s at point %d of the degree-%d rule does not reproduce x^%d y^%d (value err %.3g, gradient err %.3g, %.3g)' % (
+                            p, bub, q, d, i, j, float(e0), float(e1), float(e2)),
+                            dict(ckind='table', table='shapes2d', order=p, bubble=bub, degree=d, point=q, mono=[i, j]))
+        if len(bad) >= limit:
+            break
+    for (p, d), (N, dN) in T.shapes1d.items():
+        xn = F(T.el1d[p]['coords'])
+        x = T.rule1d[d][0]
+        for q in range(len(x)):
+            s = Fr(float(x[q]))
+            for k in range(p + 1):
+                m = [a ** k for a in xn]
+                e0 = sum(a * b for a, b in zip(F(N[:, q]), m)) - s ** k
+                e1 = sum(a * b for a, b in zip(F(dN[:, q]), m)) - (k * s ** (k - 1) if k else 0)
+                if max(abs(e0), abs(e1)) > Fr(*TOL_SHAPE):
+                    add('1-D shape table order %d at point %d of the degree-%d rule does not reproduce s^%d' % (p, q, d, k),
+                        dict(ckind='table', table='shapes1d', order=p, degree=d, point=q, mono=[k]))
+    for (p, bub), el in T.el2d.items():
+        X = el['coords']
+        s1 = T.el1d[p]['coords']
+        V = [(1.0, 0.0), (0.0, 1.0), (0.0, 0.0)]
+        ok = [tuple(X[el['vertexNodes'][k]]) == V[k] for k in range(3)] if len(el['vertexNodes']) == 3 else [False]
+        if not all(ok):
+            add('vertex nodes of parent element order %d bubble %s are not at (1,0),(0,1),(0,0)' % (p, bub),
+                dict(ckind='table', table='faces', order=p, bubble=bub))
+        for f, fn in enumerate(el['faceNodes']):
+            if len(fn) != len(s1):
+                add('face %d of parent element order %d bubble %s has %d nodes, the 1-D element %d' % (f, p, bub, len(fn), len(s1)),
+                    dict(ckind='table', table='faces', order=p, bubble=bub, face=f))
+                continue
+            for a, ia in enumerate(fn):
+                s = float(s1[a])
+                ex = ((1 - s) * V[f][0] + s * V[(f + 1) % 3][0], (1 - s) * V[f][1] + s * V[(f + 1) % 3][1])
+                if max(abs(X[ia][0] - ex[0]), abs(X[ia][1] - ex[1])) > 1e-13:
+                    add('node %d of face %d (parent element order %d bubble %s) is at %r, the 1-D node %d maps to %r' % (a, f, p, bub, tuple(X[ia]), a, ex),
+                        dict(ckind='table', table='faces', order=p, bubble=bub, face=f, local=a))
+    return bad
+
+
+# ----------------------------------------------------------------------------- driver interface
+
+def l2_cases(ctx, stream='l2', n=None):
+    r = ctx.rng(stream)
+    n = n or ctx.n(14, 120)
+    combos = [(p, b) for p in ORDERS for b in (False, True) if not (p == 1 and b)]
+    r.shuffle(combos)
+    cases = []
+    for k in range(n):
+        p, b = combos[k % len(combos)]
+        cases.append(dict(kind=MESH_KINDS[k % len(MESH_KINDS)] if k < 2 * len(MESH_KINDS) else r.choice(MESH_KINDS),
+                          mseed=r.randrange(1 << 30), order=p, bubble=b, degree=r.choice(DEG2D),
+                          mode='axisymmetric' if (k % 3 == 2) else 'cartesian', degree1d=r.choice(DEG1D)))
+    for c in cases:
+        if c['mode'] == 'axisymmetric' and c['degree'] < 2:
+            c['degree'] = 2
+    return cases
+
+
+def run_l2(ctx, cases):
+    seen = set()
+    for c in cases:
+        try:
+            bad, nev, st = l2_case(c)
+        except Exception as ex:      # the implementation refusing a valid configuration is a finding about the implementation
+            bad, nev, st = ['implementation raised %r' % ex], 0, {}
+        ctx.count('evaluations', nev)
+        ctx.count('l2_mesh_configurations')
+        key = (c['kind'], c['mseed'], c['order'], c['bubble'], c['degree'], c['mode'])
+        if key not in seen and st.get('elements', 0) >= 2:
+            seen.add(key)
+            ctx.count('distinct_nontrivial')
+        ctx.count('l2_kind_' + c['kind'])
+        ctx.count('l2_order_%d%s' % (c['order'], 'b' if c['bubble'] else ''))
+        if len(ctx.samples) < 3:
+            ctx.sample(dict(case=c, stats=st, violated=bad))
+        for b in bad[:3]:
+            ctx.fail('conclusion', 'FunctionSpace on %s mesh (seed %d), order %d%s, degree %d, %s: %s' % (
+                c['kind'], c['mseed'], c['order'], ' bubble' if c['bubble'] else '', c['degree'], c['mode'], b),
+                case=dict(ckind='mesh', **c), concrete=True)
+
+
+def correspondence(ctx, model_ok):
+    import optimism  # noqa: F401
+    t0 = time.time()
+    T = Tables()
+    ctx.log('called the table constructors for the whole configuration set in %.1fs' % (time.time() - t0))
+    # ---- L2: conclusions of the lifting theorems on the implementation's FunctionSpace
+    t0 = time.time()
+    run_l2(ctx, l2_cases(ctx))
+    ctx.log('L2 on %d seeded meshes in %.1fs' % (ctx.counts.get('l2_mesh_configurations', 0), time.time() - t0))
+    if not model_ok:
+        return
+    # ---- K: certificates for every runtime table (complete configuration set)
+    t0 = time.time()
+    files, cfgmap = cert_files(T)
+    res = run_certs(ctx, files)
+    nbad = [r_ for r_ in res if not r_['ok']]
+    ctx.cov['certificates'] = dict(files=len(res), configurations=len(cfgmap), failed=[r_['name'] for r_ in nbad],
+                                   seconds=round(time.time() - t0, 1), bytes=sum(r_['bytes'] for r_ in res),
+                                   tolerances=dict(shapes='1e-11', tri_runtime='1e-14', gauss1d='1e-13', faces='1e-13', lobatto_root='1e-11'))
+    ctx.cov['certificate_map_sample'] = dict(list(sorted(cfgmap.items()))[:6])
+    ctx.count('certified_configurations', len(cfgmap))
+    ctx.count('distinct_nontrivial', len(cfgmap))
+    ctx.count('evaluations', len(cfgmap))
+    ctx.log('certificates: %d files, %d configurations, %d failed, %.1fs' % (len(res), len(cfgmap), len(nbad), time.time() - t0))
+    if nbad:
+        conc = table_identities_exact(T)
+        for f in conc:
+            ctx.fail(f['kind'], f['what'], case=f['case'], concrete=True)
+        if not conc:
+            for r_ in nbad[:3]:
+                ctx.fail('certificate', 'certificate %s no longer checks: %s' % (r_['name'], r_['out'][-400:]))
+    # ---- L1: Num-generic geometric kernels executed at binary64 against the implementation
+    cases = l1_cases(ctx)
+    impl = l1_impl(cases)
+    res = C.coq_eval(IMPORTS, l1_exprs(cases, impl), 'C03', shard=300)
+    l1_compare(ctx, cases, impl, res)
+    ctx.count('evaluations', len(res))
+    ctx.count('distinct_nontrivial', len(cases))
+
+
+def search(ctx, reasons):
+    """a proof / extraction / certificate / correspondence broke and no concrete input is known yet"""
+    import copy
+    import optimism  # noqa: F401
+    try:
+        conc = table_identities_exact(Tables())
+        if conc:
+            return conc[0]
+    except Exception as ex:
+        ctx.notes.append('search: table constructors raised %r' % ex)
+    # the source tables themselves (decimal text), against the exact moments
+    try:
+        from vlib import tab_c03
+        br = tab_c03.parse_tri_tables(open(os.path.join(C.REPO, 'optimism/QuadratureRule.py')).read())
+        for d in DEG2D:
+            sel = next(((pts, ws) for (is_le, n, pts, ws) in br if (d <= n if is_le else d == n)), None)
+            if sel is None:
+                return dict(kind='conclusion', what='no tabulated rule is selected for degree %d' % d, case=dict(ckind='table', table='source', degree=d), concrete=True)
+            pts, ws = sel
+            fr = lambda me: Fr(me[0]) * Fr(10) ** me[1]
+            for i in range(d + 1):
+                for j in range(d + 1 - i):
+                    s = sum(fr(w) * fr(x) ** i * fr(y) ** j for w, (x, y) in zip(ws, pts))
+                    ex = Fr(_FACT[i] * _FACT[j], _FACT[i + j + 2])
+                    if abs(s - ex) > Fr(2, 10 ** 15):
+                        return dict(kind='conclusion', what='the tabulated rule selected for degree %d integrates x^%d y^%d to %.17g instead of %.17g' % (d, i, j, float(s), float(ex)),
+                                    case=dict(ckind='table', table='source', degree=d, mono=[i, j]), concrete=True)
+    except Exception as ex:
+        ctx.notes.append('search: source tables unreadable: %r' % ex)
+    c2 = copy.copy(ctx)
+    c2.failures, c2.counts, c2.samples = [], {}, []
+    run_l2(c2, l2_cases(c2, stream='search', n=80))
+    conc = [f for f in c2.failures if f.get('concrete')]
+    return conc[0] if conc else None
+
+
+def finding_fails(ctx, f):
+    w = f['witness']
+    if w.get('ckind') == 'mesh':
+        bad, _, _ = l2_case(w)
+        return bool(bad)
+    return False
+
+
+def matches_finding(fl, f):
+    return False
+
+
+def replay(ctx, path):
+    rep = json.load(open(path))
+    case = rep.get('failing_input')
+    print('replay of', path)
+    print(json.dumps(rep.get('reasons'), indent=1, default=str)[:3000])
+    if not case:
+        print('no concrete failing input recorded; broken obligations:', rep.get('broken'))
+        return 1
+    import optimism  # noqa: F401
+    if case.get('ckind') == 'mesh':
+        bad, _, st = l2_case(case)
+        print('implementation now:', bad or 'conclusions hold', st)
+        return 1 if bad else 0
+    if case.get('ckind') == 'table':
+        if case.get('table') == 'source':
+            found = search(ctx, [])
+            print('now:', found['what'] if found else 'tables check')
+            return 1 if found else 0
+        conc = table_identities_exact(Tables(), limit=50)
+        same = [c for c in conc if c['case'].get('table') == case.get('table')]
+        print('implementation now:', [c['what'] for c in same[:5]] or 'identities hold')
+        return 1 if same else 0
+    print('case kind', case.get('ckind'), 'is replayed by re-running the check')
+    return 1
